@@ -481,7 +481,11 @@ func writeEvidence(verif string, c *Check, tier string, seed int, r *Result, wal
 		cov["traces_validated_against_impl"] = r.Traces
 	}
 	if len(r.Caps) > 0 {
-		cov["caps"] = r.Caps
+		caps := r.Caps
+		if len(caps) > 12 {
+			caps = append(append([]string{}, caps[:12]...), fmt.Sprintf("... and %d more", len(r.Caps)-12))
+		}
+		cov["caps"] = caps
 	}
 	if len(r.Notes) > 0 {
 		cov["notes"] = r.Notes
